@@ -91,7 +91,7 @@ static const char *vif_indextoname(unsigned int i, char *buf, size_t len)
   unsigned int k;
   for (k = 1; vif_names[k] != NULL; k++)
     if (k == i) {
-      if (len < IF_NAMESIZE) return NULL;
+      if (len < 16) return NULL;
       ares_strcpy(buf, vif_names[k], len);
       return buf;
     }
@@ -418,6 +418,17 @@ static void dump_saved(long k, const char *tag, int rc, const struct ares_option
 /* ------------------------------------------------------------------ environment per case */
 static char path_resolv[3100], path_nss[3100], path_netsvc[3100], path_svc[3100], path_hosts[3100], path_alias[3100];
 
+/* env.L / env.R: LOCALDOMAIN / RES_OPTIONS; jenv.L / jenv.R: values the generator marks as junk,
+ * present only in the "full" variant of an rc case */
+static void set_env_junk(const params_t *p, int with_junk)
+{
+  char *v;
+  if (with_junk && (v = pget_str(p, "jenv.L"))) { setenv("LOCALDOMAIN", v, 1); free(v); }
+  else if (pget(p, "jenv.L")) unsetenv("LOCALDOMAIN");
+  if (with_junk && (v = pget_str(p, "jenv.R"))) { setenv("RES_OPTIONS", v, 1); free(v); }
+  else if (pget(p, "jenv.R")) unsetenv("RES_OPTIONS");
+}
+
 static void set_env(const params_t *p)
 {
   char *v;
@@ -476,6 +487,7 @@ static void run_rc(long k, const params_t *p)
     optbuild_t      ob;
     ares_channel_t *c = NULL;
     int             rc;
+    set_env_junk(p, with_junk);
     write_sysfiles(with_junk, 0, noeol);
     build_options(p, &ob, path_resolv, NULL);
     rc = ares_init_options(&c, &ob.o, ob.mask);
